@@ -242,6 +242,33 @@ def replay_overlap(vals):
     return {"rejected": rejected, "overlap": overlap, "fails": rejected != overlap}
 
 
+def string_dates(ck):
+    """The public entry point also accepts the date as a string.  pandas' parser is not encodable; concrete supplement,
+    NOT a solver verdict: every calendar day of a leap and a non-leap year written in ISO form (YYYY-MM-DD) must parse to
+    that day (all day/month combinations, in particular days <= 12 that could be read as months)."""
+    from _gettsim.policy_environment import _parse_date
+    ck.obligations += 1
+    bad = []
+    n = 0
+    for year in (2023, 2024):
+        d = datetime.date(year, 1, 1)
+        while d.year == year:
+            n += 1
+            try:
+                got = _parse_date(d.isoformat())
+            except Exception as e:   # noqa: BLE001
+                got = f"raises {type(e).__name__}"
+            if got != d:
+                bad.append((d.isoformat(), str(got)))
+            d += datetime.timedelta(days=1)
+    ck.extra["iso_date_strings_parsed"] = n
+    if not bad:
+        ck.discharged += 1
+    else:
+        ck.violation(["parse-date", "iso-string"], f"_parse_date reads {len(bad)} of {n} ISO date strings as another day, e.g. {bad[:3]}: the environment for a date given as "
+                     "string is not the law of that day", {"kind": "parse", "iso": bad[0][0]})
+
+
 def run(tier):
     ck = common.Check("C07", tier)
     last = max(dateprobe.yaml_seed_dates())
@@ -291,6 +318,7 @@ def run(tier):
     for r in regions[:6]:
         ck.samples.append({"region": f"{r.first}..{r.last}", "representative": str(r.rep), "recorded_date_operations": r.nops,
                            "environment_fingerprint": (r.fp or "")[:12], "oracle_disagreements": len(r.extra or [])})
+    string_dates(ck)
     overlap_lemma(ck)
     ck.extra["regions"] = len(regions)
     ck.extra["distinct_environments"] = len({r.fp for r in regions})
@@ -308,6 +336,11 @@ def run(tier):
 
 def replay(path):
     d = json.load(open(path))["replay"]
+    if d["kind"] == "parse":
+        from _gettsim.policy_environment import _parse_date
+        got = _parse_date(d["iso"])
+        print(d["iso"], "->", got)
+        return 1 if got != datetime.date.fromisoformat(d["iso"]) else 0
     if d["kind"] == "overlap":
         rep = replay_overlap(d["vals"])
         print(rep)
